@@ -505,6 +505,23 @@ def line_text_cases(tier):
                 yield {"k": "src", "s": "Lb", "src": src, "mode": "exec", "opt": 0}
 
 
+def line_text_def_cases(tier):
+    """The same line shapes inside a function body: the function code objects of
+    different cases are equal under code.__eq__ (which ignores the line table) but
+    carry different line tables."""
+    for c in line_text_cases(tier):
+        if c["s"] != "Lf":
+            continue
+        body = "".join("    " + l + "\n" if l.strip() else "\n" for l in c["src"].split("\n")[:-1])
+        yield {"k": "src", "s": "Ld", "src": "def f(x):\n" + body + "    return x\n", "mode": "exec", "opt": 0}
+
+
+def n_line_text_def_cases(tier):
+    ds = len(LINE_D) if tier == "thorough" else 8
+    bs = len(BYTE_B) if tier == "thorough" else 7
+    return bs * ds * bs * ds
+
+
 def n_line_text_cases(tier):
     ds = len(LINE_D) if tier == "thorough" else 8
     bs = len(BYTE_B) if tier == "thorough" else 7
